@@ -327,7 +327,8 @@ Defined(d, y) ==
   /\ (~IsStat(d) => y.k = 1)
   /\ CASE d.k \in {"monotonic", "sorting"} ->
             \* an out-of-range member of a multi-index raises (operation undefined); aliases excluded
-            IsNone(d.ix) \/ Len(d.ix) = 1 \/ (~HasOOR(d.ix, n) /\ NoAlias(d.ix, n))
+            \* (an EMPTY selection raises TypeError in operator.itemgetter: undefined as well)
+            IsNone(d.ix) \/ Len(d.ix) = 1 \/ (Len(d.ix) > 1 /\ ~HasOOR(d.ix, n) /\ NoAlias(d.ix, n))
        [] d.k = "at" -> \A j \in DOMAIN d.ix : d.ix[j] >= -n      \* a too-negative index raises
        [] d.k = "unique" -> Rng(v) \subseteq Rng(d.iv[1]) /\ n <= Cardinality(Rng(d.iv[1]))
        [] d.k = "as" ->     \* the documented relation can hold for all pairs at once (chains, fan-in/out, trees are fine)
